@@ -133,3 +133,11 @@ prop("C18",
      assumptions=SYN_ASSUME + EXEC_ASSUME,
      runs=[dict(test="^TestC18_Syntax$", quick=dict(checks=10000), thorough=dict(checks=100000, shards=16, timeout=3000)),
            dict(test="^TestC18_Field$", quick=dict(checks=2500), thorough=dict(checks=25000, shards=16, timeout=3000))])
+
+prop("C12",
+     level_text="repeat-and-compare search: each request (a catalogue aimed at every place where output is built from a Go map, plus rapid-generated valid / failing / invalid requests) is executed 13 times in one process, interleaved with other requests and also served through a plan cache, and the JSON bytes and ValidateDocument error lists must be identical; the same generated requests are then run in several fresh processes (fresh map seeds) and their response digests must agree",
+     note="Go randomises map iteration per range statement and per process; repetition samples those seeds, it does not enumerate them (DESIGN §7)",
+     technique="property-based testing (rapid) + multi-process differential (self-comparison oracle)",
+     rule="catalogue: unknown field / argument / type / enum value with several equidistant suggestions, input-object literals and variables with several invalid fields, several failing thunks in objects and lists, introspection of types / fields / args / inputFields / enumValues / possibleTypes / directives, multi-rule invalid documents; generated: C04-style executions. Non-trivial = the response carries >= 2 error messages, a suggestion list, or an introspection list; distinct by hash of the case.",
+     assumptions=["replica processes are given the same rapid seed and therefore the same requests; only map seeds differ"],
+     runs=[dict(test="^TestC12_", quick=dict(checks=600, replicas=3), thorough=dict(checks=4000, shards=8, replicas=4, timeout=3000))])
